@@ -69,7 +69,7 @@ def analyse(P, cases, index, impl, model):
         if ml is not None:
             if ml.startswith("RUNNER-FAIL") or ml.startswith("BAD-CASE") or ml.startswith("BUILD-ERR"):
                 runner.append((i, "model: " + ml))
-            elif P.view(c, il) != P.view(c, ml):
+            elif not P.agree(c, il, ml):
                 if not P.known_disagreement(c, il, ml):
                     disagree.append(i)
     for i, o in P.cross(cases, impl):
@@ -279,7 +279,7 @@ def replay(P, path, model_bin):
     print("model: " + str(mo)[:2000])
     o = P.oracle(r["case"], out)
     print("oracle: " + ("holds" if o is None else o))
-    dis = mo is not None and P.view(r["case"], out) != P.view(r["case"], mo)
+    dis = mo is not None and not P.agree(r["case"], out, mo)
     print("correspondence: " + ("DISAGREE" if dis else "agree"))
     if o is not None or dis:
         print("VIOLATION property=%s replay=%s" % (P.pid, path))
